@@ -403,10 +403,29 @@ def random_sparse(rng, max_dim=300):
         mask[int(rng.integers(shape[0]))] = False
     if shape[1] > 2 and rng.random() < 0.5:
         mask[:, int(rng.integers(shape[1]))] = False
-    dtype = str(rng.choice(['float32', 'float64', 'int32', 'int64']))
+    dtype = str(rng.choice(['float32', 'float64', 'int32', 'int64',
+                            'uint64']))
     ids = np.arange(1, mask.size + 1).reshape(shape)
     M = np.zeros(shape, dtype=dtype)
     M[mask] = ids[mask].astype(dtype)
+    if mask.any() and rng.random() < 0.5:
+        # stored values at the edges of the type: they survive only if no
+        # step of the transposition passes through another numeric type
+        dt = np.dtype(dtype)
+        if dt.kind == 'f':
+            fi = np.finfo(dt)
+            ext = [fi.max, -fi.max, fi.tiny, 1.0 + fi.eps, 1.0 / 3.0]
+        else:
+            ii = np.iinfo(dt)
+            ext = [ii.max, ii.max - 1] + ([ii.min + 1] if ii.min < 0 else [])
+            if dt.itemsize == 8:
+                ext += [2 ** 53 + 1, 2 ** 53 + 5, 2 ** 62 + 12345]
+            else:
+                ext += [2 ** 24 + 1]
+        rr, cc = np.where(mask)
+        for e in ext:
+            k = int(rng.integers(len(rr)))
+            M[rr[k], cc[k]] = np.array([e]).astype(dt)[0]
     return M
 
 
